@@ -124,6 +124,18 @@ Case gen_C19(uint64_t seed, long run, const GenCfg &g, const char *inflight) {
         }
         // FACTORED re-solves of ILU factors after a singular step can not occur: singular steps are gssvx only and invalidate the factors
     }
+    // stand-alone utilities (format conversion, copies, right-hand-side set-up, printing, MC64) at arbitrary points of the
+    // lifecycle; drawn from their own stream so that the lifecycles themselves stay what they were
+    {
+        Rng ru(mix3(seed, 0x7711, (uint64_t)run));
+        int cnt = ru.chance(0.35) ? ru.range(1, 2) : 0;
+        for (int k = 0; k < cnt; k++) {
+            Op u; u.kind = "util"; u.slot = (slot1 && ru.chance(0.3)) ? 1 : 0; u.stages = 1 + (int)ru.below(63);
+            u.nrhs = ru.range(1, 3); u.ldpad = ru.chance(0.4) ? ru.range(1, 3) : 0; u.trans = ru.chance(0.5) ? TRANS : NOTRANS; u.rhs_seed = ru.next();
+            size_t pos = 1 + (size_t)ru.below(ops.size() - 2);
+            ops.insert(ops.begin() + pos, u);
+        }
+    }
     t.ops = ops;
     c.tasks.push_back(t);
     c.prior_plans = (int)r.below(G_NUM); // second dirty mode
